@@ -363,6 +363,9 @@ func logoutPath(f *FilterSpec) string {
 	if f.InheritLogout && f.inheritedLogoutPath != "" {
 		return f.inheritedLogoutPath
 	}
+	if f.LogoutSlash {
+		return "/" + f.Name + "/logout/"
+	}
 	return "/" + f.Name + "/logout"
 }
 func cookieName(f *FilterSpec) string {
